@@ -221,7 +221,7 @@ fn float_ctor_checks(ctx: &Ctx) -> u64 {
 
 pub fn c12(ctx: &Ctx) {
     let full = ctx.tier == Tier::Thorough;
-    let lumas = frames::luma_sizes();
+    let lumas: Vec<(usize, usize)> = frames::luma_sizes().into_iter().filter(|(w, h)| !ctx.flag("lite") || (*w <= 5 && *h <= 5) || (*w, *h) == (64, 48)).collect();
     let confusion: Mutex<std::collections::BTreeMap<(String, String), u64>> = Mutex::new(Default::default());
     let n_geo = AtomicU64::new(0);
     let n_wellformed = AtomicU64::new(0);
